@@ -15,8 +15,8 @@ use super::c19_types::*;
 use super::{rt, Sweep};
 use crate::util::*;
 use linfa::prelude::*;
-use linfa::traits::{Fit, Predict, Transformer};
-use linfa::{Dataset, DatasetBase, ParamGuard};
+use linfa::traits::{Fit, FitWith, Predict, Transformer};
+use linfa::{Dataset, DatasetBase, Float, ParamGuard};
 use ndarray::{Array1, Array2};
 use std::panic::{catch_unwind, AssertUnwindSafe};
 
@@ -72,26 +72,43 @@ fn nb_one<F: Fl, L: linfa::Label + serde::Serialize + serde::de::DeserializeOwne
     let ds = Dataset::new(x, y);
     let probe = if tied { "ties" } else { "labels" };
     em.count(&format!("probe:nb_{}", probe));
-    em.count(&format!("inst:nb<{}>", lname));
     if let Ok(model) = GaussianNb::<F, L>::params().fit(&ds) {
+        em.count(&format!("inst:nb<{}>", lname));
+        let ds3 = ds.clone();
         rt(em, sw, "linfa-bayes::GaussianNb", tag, Norm::SortMaps, &model, &|a: &GaussianNb<F, L>, b, ctx, class| {
             let class = format!("{}:labels={}:probe={}", class, lname, probe);
-            ctx.require(a == b || a != a, "equal", &class, || "models differ".into());
+            ctx.require(a == b || (a != a && super::value_has_nan()), "equal", &class, || "models differ".into());
             // the score table is rebuilt on every call: ask several times
             for _ in 0..6 {
                 same_call(ctx, "predict", &class, "predict", || a.predict(&fresh).to_vec(), || b.predict(&fresh).to_vec());
             }
             same_call(ctx, "predict", &format!("{}:probe=nonfinite", class), "predict on non-finite rows", || a.predict(&bad).to_vec(), || b.predict(&bad).to_vec());
+            // incremental fit continued from the restored model (`fit_with(Some(restored))`)
+            let vpi: GaussianNbValidParams<F, L> = GaussianNb::params().check().unwrap();
+            let cont = |m: &GaussianNb<F, L>| match vpi.fit_with(Some(m.clone()), &ds3) {
+                Ok(Some(r)) => super::c19_canon::canon(&r, true, Norm::SortMaps).0,
+                Ok(None) => "none".into(),
+                Err(e) => format!("err:{}", e),
+            };
+            refit_same(ctx, &format!("{}:entry=fit_with", class), &|| cont(a), &|| cont(b));
         });
     }
     if let Ok(model) = MultinomialNb::<F, L>::params().fit(&ds) {
+        let ds3 = ds.clone();
         rt(em, sw, "linfa-bayes::MultinomialNb", tag, Norm::SortMaps, &model, &|a: &MultinomialNb<F, L>, b, ctx, class| {
             let class = format!("{}:labels={}:probe={}", class, lname, probe);
-            ctx.require(a == b || a != a, "equal", &class, || "models differ".into());
+            ctx.require(a == b || (a != a && super::value_has_nan()), "equal", &class, || "models differ".into());
             for _ in 0..6 {
                 same_call(ctx, "predict", &class, "predict", || a.predict(&fresh).to_vec(), || b.predict(&fresh).to_vec());
             }
             same_call(ctx, "predict", &format!("{}:probe=nonfinite", class), "predict on non-finite rows", || a.predict(&bad).to_vec(), || b.predict(&bad).to_vec());
+            let vpi: MultinomialNbValidParams<F, L> = MultinomialNb::params().check().unwrap();
+            let cont = |m: &MultinomialNb<F, L>| match vpi.fit_with(Some(m.clone()), &ds3) {
+                Ok(Some(r)) => super::c19_canon::canon(&r, true, Norm::SortMaps).0,
+                Ok(None) => "none".into(),
+                Err(e) => format!("err:{}", e),
+            };
+            refit_same(ctx, &format!("{}:entry=fit_with", class), &|| cont(a), &|| cont(b));
         });
     }
     // the parameter sets of the same label type
@@ -99,7 +116,7 @@ fn nb_one<F: Fl, L: linfa::Label + serde::Serialize + serde::de::DeserializeOwne
     let ds2 = ds.clone();
     rt(em, sw, "linfa-bayes::GaussianNbValidParams", tag, Norm::Exact, &vp, &|a, b, ctx, class| {
         let class = format!("{}:labels={}", class, lname);
-        ctx.require(a == b || a != a, "equal", &class, || format!("{:?} vs {:?}", a, b));
+        ctx.require(a == b || (a != a && super::value_has_nan()), "equal", &class, || format!("{:?} vs {:?}", a, b));
         dbg_same(ctx, &class, a, b);
         refit_same(ctx, &class, &|| fp(a.fit(&ds2)), &|| fp(b.fit(&ds2)));
     });
@@ -138,14 +155,15 @@ where
     let ds2 = ds.clone();
     rt(em, sw, "linfa-clustering::KMeansParams", tag, Norm::Exact, &params, &|a, b, ctx, class| {
         let class = format!("{}:dist={}", class, dname);
-        ctx.require(a == b || a != a, "equal", &class, || format!("{:?} vs {:?}", a, b));
+        ctx.require(a == b || (a != a && super::value_has_nan()), "equal", &class, || format!("{:?} vs {:?}", a, b));
         dbg_same(ctx, &class, a, b);
         refit_same(ctx, &class, &|| fp(a.fit(&ds2)), &|| fp(b.fit(&ds2)));
     });
+    let (pk, ds4) = (params.clone(), ds.clone());
     if let Ok(model) = params.fit(&ds) {
         rt(em, sw, "linfa-clustering::KMeans", tag, Norm::Exact, &model, &|a: &KMeans<F, D>, b, ctx, class| {
             let class = format!("{}:dist={}", class, dname);
-            ctx.require(a == b || a != a, "equal", &class, || "models differ".into());
+            ctx.require(a == b || (a != a && super::value_has_nan()), "equal", &class, || "models differ".into());
             dbg_same(ctx, &class, a, b);
             same_arr(ctx, "accessors", &class, "centroids", a.centroids(), b.centroids());
             same_arr(ctx, "accessors", &class, "cluster_count", a.cluster_count(), b.cluster_count());
@@ -155,6 +173,14 @@ where
             same_call(ctx, "predict", &format!("{}:probe=nonfinite", class), "predict on non-finite rows", || a.predict(&bad).to_vec(), || b.predict(&bad).to_vec());
             // the single-row calling form
             same_call(ctx, "predict", &format!("{}:form=row", class), "predict(row)", || { let r: usize = a.predict(&fresh.row(2)); r }, || { let r: usize = b.predict(&fresh.row(2)); r });
+            // mini-batch step continued from the restored model
+            if let Ok(vpk) = pk.check_ref() {
+                let cont = |m: &KMeans<F, D>| match vpk.fit_with(Some(m.clone()), &ds4) {
+                    Ok(r) | Err(IncrKMeansError::NotConverged(r)) => super::c19_canon::canon(&r, true, Norm::Exact).0,
+                    Err(e) => format!("err:{}", e),
+                };
+                refit_same(ctx, &format!("{}:entry=fit_with", class), &|| cont(a), &|| cont(b));
+            }
         });
     }
     let nn = [CommonNearestNeighbour::LinearSearch, CommonNearestNeighbour::BallTree][rng.below(2)].clone();
@@ -162,7 +188,7 @@ where
     let x2 = x.clone();
     rt(em, sw, "linfa-clustering::DbscanValidParams", tag, Norm::Exact, &dvp, &|a, b, ctx, class| {
         let class = format!("{}:dist={}", class, dname);
-        ctx.require(a == b || a != a, "equal", &class, || format!("{:?} vs {:?}", a, b));
+        ctx.require(a == b || (a != a && super::value_has_nan()), "equal", &class, || format!("{:?} vs {:?}", a, b));
         dbg_same(ctx, &class, a, b);
         ctx.require(a.dist_fn() == b.dist_fn() && a.nn_algo() == b.nn_algo(), "accessors", &class, || "dist_fn / nn_algo".into());
         refit_same(ctx, &class, &|| fp::<_, String>(Ok(a.transform(&x2))), &|| fp::<_, String>(Ok(b.transform(&x2))));
@@ -171,7 +197,7 @@ where
     let x2 = x.clone();
     rt(em, sw, "linfa-clustering::OpticsValidParams", tag, Norm::Exact, &ovp, &|a, b, ctx, class| {
         let class = format!("{}:dist={}", class, dname);
-        ctx.require(a == b || a != a, "equal", &class, || format!("{:?} vs {:?}", a, b));
+        ctx.require(a == b || (a != a && super::value_has_nan()), "equal", &class, || format!("{:?} vs {:?}", a, b));
         dbg_same(ctx, &class, a, b);
         refit_same(ctx, &class, &|| fp::<_, String>(Ok(a.transform(x2.view()))), &|| fp::<_, String>(Ok(b.transform(x2.view()))));
     });
@@ -205,11 +231,11 @@ fn $fname(em: &mut Em, rng: &mut Rng, sw: &mut Sweep) {
     macro_rules! binlog { ($L:ty, $lname:expr, $mk:expr) => {{
         let y: Array1<$L> = yl.mapv($mk);
         let ds = Dataset::new(x.clone(), y);
-        em.count(concat!("inst:logistic<", $lname, ">"));
         if let Ok(m) = LogisticRegression::<F>::default().max_iterations(30).fit(&ds) {
+            em.count(concat!("inst:logistic<", $lname, ">"));
             rt(em, sw, "linfa-logistic::FittedLogisticRegression", tag, Norm::Exact, &m, &|a: &FittedLogisticRegression<F, $L>, b, ctx, class| {
                 let class = format!("{}:labels={}", class, $lname);
-                ctx.require(a == b || a != a, "equal", &class, || "models differ".into());
+                ctx.require(a == b || (a != a && super::value_has_nan()), "equal", &class, || "models differ".into());
                 dbg_same(ctx, &class, a, b);
                 ctx.require(a.labels() == b.labels(), "accessors", &class, || "labels".into());
                 same_call(ctx, "predict", &format!("{}:probe=ties", class), "predict", || a.predict(&fresh).to_vec(), || b.predict(&fresh).to_vec());
@@ -220,6 +246,7 @@ fn $fname(em: &mut Em, rng: &mut Rng, sw: &mut Sweep) {
     }}}
     binlog!(bool, "bool", |v| v == 1);
     binlog!(usize, "usize", |v| v + 7);
+    binlog!(i32, "i32", |v| v as i32 * 2 - 1);
     // ---- multinomial with string labels
     {
         let c = 3;
@@ -227,11 +254,11 @@ fn $fname(em: &mut Em, rng: &mut Rng, sw: &mut Sweep) {
         let xm: Array2<F> = blobs(rng, n, p, &ym);
         let ys: Array1<String> = ym.mapv(|v| ["red", "green", "blue"][v].to_string());
         let ds = Dataset::new(xm, ys);
-        em.count("inst:multilogistic<String>");
         if let Ok(m) = MultiLogisticRegression::<F>::default().max_iterations(30).fit(&ds) {
+            em.count("inst:multilogistic<String>");
             rt(em, sw, "linfa-logistic::MultiFittedLogisticRegression", tag, Norm::Exact, &m, &|a: &MultiFittedLogisticRegression<F, String>, b, ctx, class| {
                 let class = format!("{}:labels=String", class);
-                ctx.require(a == b || a != a, "equal", &class, || "models differ".into());
+                ctx.require(a == b || (a != a && super::value_has_nan()), "equal", &class, || "models differ".into());
                 dbg_same(ctx, &class, a, b);
                 ctx.require(a.classes() == b.classes(), "accessors", &class, || "classes".into());
                 same_call(ctx, "predict", &format!("{}:probe=ties", class), "predict", || a.predict(&fresh).to_vec(), || b.predict(&fresh).to_vec());
@@ -243,19 +270,19 @@ fn $fname(em: &mut Em, rng: &mut Rng, sw: &mut Sweep) {
     macro_rules! tree { ($L:ty, $lname:expr, $mk:expr) => {{
         let y: Array1<$L> = yl.mapv($mk);
         let ds = Dataset::new(x.clone(), y);
-        em.count(concat!("inst:tree<", $lname, ">"));
         let params = DecisionTree::<F, $L>::params().max_depth(Some(3));
         rt(em, sw, "linfa-trees::DecisionTreeParams", tag, Norm::Exact, &params, &|a, b, ctx, class| {
             let class = format!("{}:labels={}", class, $lname);
-            ctx.require(a == b || a != a, "equal", &class, || format!("{:?} vs {:?}", a, b));
+            ctx.require(a == b || (a != a && super::value_has_nan()), "equal", &class, || format!("{:?} vs {:?}", a, b));
             dbg_same(ctx, &class, a, b);
         });
         if let Ok(m) = params.fit(&ds) {
+            em.count(concat!("inst:tree<", $lname, ">"));
             rt(em, sw, "linfa-trees::DecisionTree", tag, Norm::Exact, &m, &|a: &DecisionTree<F, $L>, b, ctx, class| {
                 let class = format!("{}:labels={}", class, $lname);
-                ctx.require(a == b || a != a, "equal", &class, || "trees differ".into());
+                ctx.require(a == b || (a != a && super::value_has_nan()), "equal", &class, || "trees differ".into());
                 dbg_same(ctx, &class, a, b);
-                ctx.require(sorted(a.features()) == sorted(b.features()) && a.max_depth() == b.max_depth() && a.num_leaves() == b.num_leaves(), "accessors", &class, || "features / depth / leaves".into());
+                ctx.require(a.features() == b.features() && a.max_depth() == b.max_depth() && a.num_leaves() == b.num_leaves(), "accessors", &class, || "features / depth / leaves".into());
                 same_call(ctx, "predict", &format!("{}:probe=ties", class), "predict", || a.predict(&fresh).to_vec(), || b.predict(&fresh).to_vec());
                 same_call(ctx, "predict", &format!("{}:probe=nonfinite", class), "predict on non-finite rows", || a.predict(&bad).to_vec(), || b.predict(&bad).to_vec());
                 same_call(ctx, "accessors", &class, "tikz export", || Tikz::new(a).complete(true).to_string(), || Tikz::new(b).complete(true).to_string());
@@ -268,19 +295,19 @@ fn $fname(em: &mut Em, rng: &mut Rng, sw: &mut Sweep) {
     let yb: Array1<bool> = yl.mapv(|v| v == 1);
     let dsb = Dataset::new(x.clone(), yb);
     let svmb = |a: &Svm<F, bool>, b: &Svm<F, bool>, ctx: &mut Ctx, class: &str| {
-        ctx.require(a == b || a != a, "equal", class, || "models differ".into());
+        ctx.require(a == b || (a != a && super::value_has_nan()), "equal", class, || "models differ".into());
         dbg_same(ctx, class, a, b);
         same_call(ctx, "predict", &format!("{}:probe=ties", class), "predict", || { let r: Array1<bool> = a.predict(&fresh); r.to_vec() }, || { let r: Array1<bool> = b.predict(&fresh); r.to_vec() });
         same_call(ctx, "predict", &format!("{}:probe=nonfinite", class), "decision values on non-finite rows", || bad.rows().into_iter().map(|r| fb(a.weighted_sum(&r))).collect::<Vec<_>>(), || bad.rows().into_iter().map(|r| fb(b.weighted_sum(&r))).collect::<Vec<_>>());
         same_call(ctx, "predict", &format!("{}:form=row", class), "predict(row)", || { let r: bool = a.predict(fresh.row(0)); r }, || { let r: bool = b.predict(fresh.row(0)); r });
     };
-    em.count("inst:svm<nu_svc>");
     if let Ok(m) = Svm::<F, bool>::params().nu_weight(0.3 as F).gaussian_kernel(2.0 as F).fit(&dsb) {
+        em.count("inst:svm<nu_svc>");
         rt(em, sw, "linfa-svm::Svm", tag, Norm::Exact, &m, &|a, b, ctx, class| svmb(a, b, ctx, &format!("{}:kind=nu_svc", class)));
     }
-    em.count("inst:svm<one_class>");
     let ds1 = Dataset::new(x.clone(), Array1::from_elem(n, ()));
     if let Ok(m) = Svm::<F, Pr>::params().nu_weight(0.2 as F).gaussian_kernel(5.0 as F).fit(&ds1) {
+        em.count("inst:svm<one_class>");
         let m: Svm<F, bool> = m;
         rt(em, sw, "linfa-svm::Svm", tag, Norm::Exact, &m, &|a, b, ctx, class| svmb(a, b, ctx, &format!("{}:kind=one_class", class)));
     }
@@ -363,7 +390,7 @@ fn invalid<F: Fl>(em: &mut Em, rng: &mut Rng, sw: &mut Sweep) {
         em.count("invalid:PlsSvdParams");
         rt(em, sw, "linfa-pls::PlsSvdParams", tag, Norm::Exact, &sp, &|a, b, ctx, class| {
             let class = format!("{}:instance=invalid", class);
-            ctx.require(a == b || a != a, "equal", &class, || format!("{:?} vs {:?}", a, b));
+            ctx.require(a == b || (a != a && super::value_has_nan()), "equal", &class, || format!("{:?} vs {:?}", a, b));
             dbg_same(ctx, &class, a, b);
             let f = |q: &PlsSvdParams| verdict(Fit::<Array2<F>, Array2<F>, PlsError>::fit(q, &ds).map(|_| String::new()).map_err(|e| e.to_string()));
             same_call(ctx, "validate", &class, "fit verdict", || f(a), || f(b));
@@ -377,7 +404,7 @@ fn invalid<F: Fl>(em: &mut Em, rng: &mut Rng, sw: &mut Sweep) {
         em.count("invalid:LinearScalerParams");
         rt(em, sw, "linfa-preprocessing::LinearScalerParams", tag, Norm::Exact, &sp, &|a, b, ctx, class| {
             let class = format!("{}:instance=invalid", class);
-            ctx.require(a == b || a != a, "equal", &class, || format!("{:?} vs {:?}", a, b));
+            ctx.require(a == b || (a != a && super::value_has_nan()), "equal", &class, || format!("{:?} vs {:?}", a, b));
             dbg_same(ctx, &class, a, b);
             same_call(ctx, "validate", &class, "fit verdict", || verdict(a.fit(&ds).map(|_| String::new()).map_err(|e| e.to_string())), || verdict(b.fit(&ds).map(|_| String::new()).map_err(|e| e.to_string())));
             ctx.require(a.fit(&ds).is_err(), "validate", &format!("{}:generator", class), || "the instance was meant to be invalid".into());
@@ -410,7 +437,7 @@ fn invalid_untyped(em: &mut Em, rng: &mut Rng, sw: &mut Sweep) {
         em.count("invalid:PcaParams");
         rt(em, sw, "linfa-reduction::PcaParams", "f64", Norm::Exact, &params, &|a, b, ctx, class| {
             let class = format!("{}:instance=invalid", class);
-            ctx.require(a == b || a != a, "equal", &class, || format!("{:?} vs {:?}", a, b));
+            ctx.require(a == b || (a != a && super::value_has_nan()), "equal", &class, || format!("{:?} vs {:?}", a, b));
             dbg_same(ctx, &class, a, b);
             let f = |q: &linfa_reduction::PcaParams| q.fit(&ds).map(|m| fp::<_, String>(Ok(m))).map_err(|e| e.to_string());
             same_call(ctx, "validate", &class, "fit verdict", || f(a), || f(b));
@@ -601,7 +628,7 @@ fn sizes(em: &mut Em, rng: &mut Rng, sw: &mut Sweep) {
     if let Ok(m) = LinearRegression::new().fit(&Dataset::new(x, y)) {
         rt(em, sw, "linfa-linear::FittedLinearRegression", "f64", Norm::Exact, &m, &|a, b, ctx, class| {
             let class = format!("{}:size=array16", class);
-            ctx.require(a == b || a != a, "equal", &class, || "models differ".into());
+            ctx.require(a == b || (a != a && super::value_has_nan()), "equal", &class, || "models differ".into());
             same_arr(ctx, "accessors", &class, "params", a.params(), b.params());
             same_arr(ctx, "predict", &class, "predict", &a.predict(&fresh), &b.predict(&fresh));
         });
@@ -619,10 +646,401 @@ fn sizes(em: &mut Em, rng: &mut Rng, sw: &mut Sweep) {
     if let Ok(m) = IsotonicRegression::new().fit(&Dataset::new(x, y)) {
         rt(em, sw, "linfa-linear::FittedIsotonicRegression", "f32", Norm::Exact, &m, &|a: &FittedIsotonicRegression<f32>, b, ctx, class| {
             let class = format!("{}:size=array32", class);
-            ctx.require(a == b || a != a, "equal", &class, || "models differ".into());
+            ctx.require(a == b || (a != a && super::value_has_nan()), "equal", &class, || "models differ".into());
             same_arr(ctx, "predict", &class, "predict", &a.predict(&fresh), &b.predict(&fresh));
         });
     }
+}
+
+// ------------------------------------------------------------------------------------------------
+// wide models (8 and more features: ndarray's unrolled 8-lane `dot` / `sum` kernels) asked in every memory layout
+// ------------------------------------------------------------------------------------------------
+
+/// the same matrix as a C-order array, an F-order array, a strided view (every second column of a wider array)
+/// and a view with negative strides on both axes
+pub fn for_layouts<F: Fl>(x: &Array2<F>, mut f: impl FnMut(&str, ndarray::ArrayView2<F>)) {
+    let (n, p) = x.dim();
+    f("c", x.view());
+    let fo = Array2::from_shape_fn((p, n), |(j, i)| x[(i, j)]);
+    f("f", fo.t());
+    let wide = Array2::from_shape_fn((n, 2 * p), |(i, j)| if j % 2 == 0 { x[(i, j / 2)] } else { F::cast(777.0) });
+    f("strided", wide.slice(ndarray::s![.., ..;2]));
+    let rev = Array2::from_shape_fn((n, p), |(i, j)| x[(n - 1 - i, p - 1 - j)]);
+    f("negative", rev.slice(ndarray::s![..;-1, ..;-1]));
+}
+
+fn wide<F: Fl>(em: &mut Em, rng: &mut Rng, sw: &mut Sweep) {
+    use linfa_clustering::{GaussianMixtureModel, KMeans};
+    use linfa_linear::LinearRegression;
+    use linfa_pls::PlsRegression;
+    use linfa_preprocessing::linear_scaling::LinearScaler;
+    use linfa_preprocessing::whitening::Whitener;
+    let tag = F::NAME;
+    let p = 8 + rng.below(10);
+    let n = 3 * p + rng.below(8);
+    let y = labels(rng, n, 2);
+    let x: Array2<F> = blobs(rng, n, p, &y);
+    let fresh: Array2<F> = records(rng, 7, p);
+    em.count("probe:wide");
+    let ds = DatasetBase::from(x.clone());
+    if let Ok(m) = GaussianMixtureModel::<F>::params(2).max_n_iterations(10).reg_covariance(F::cast(1e-2)).fit(&ds) {
+        em.count("wide:gmm");
+        rt(em, sw, "linfa-clustering::GaussianMixtureModel", tag, Norm::Exact, &m, &|a: &GaussianMixtureModel<F>, b, ctx, class| {
+            for_layouts(&fresh, |l, v| {
+                let class = format!("{}:probe=wide:layout={}", class, l);
+                same_call(ctx, "predict", &class, "predict", || a.predict(&v).to_vec(), || b.predict(&v).to_vec());
+                same_call(ctx, "predict", &class, "predict_proba", || bits(&a.predict_proba(&v)), || bits(&b.predict_proba(&v)));
+            });
+        });
+    }
+    if let Ok(m) = KMeans::params(3).max_n_iterations(10).fit(&ds) {
+        em.count("wide:kmeans");
+        rt(em, sw, "linfa-clustering::KMeans", tag, Norm::Exact, &m, &|a, b, ctx, class| {
+            for_layouts(&fresh, |l, v| {
+                let class = format!("{}:probe=wide:layout={}", class, l);
+                same_call(ctx, "predict", &class, "predict", || a.predict(&v).to_vec(), || b.predict(&v).to_vec());
+                same_call(ctx, "predict", &class, "transform", || ubits(&a.transform(&v)), || ubits(&b.transform(&v)));
+            });
+        });
+    }
+    let yr = lin_targets(rng, &x);
+    if let Ok(m) = LinearRegression::new().fit(&Dataset::new(x.clone(), yr.clone())) {
+        em.count("wide:ols");
+        rt(em, sw, "linfa-linear::FittedLinearRegression", tag, Norm::Exact, &m, &|a, b, ctx, class| {
+            for_layouts(&fresh, |l, v| {
+                same_call(ctx, "predict", &format!("{}:probe=wide:layout={}", class, l), "predict", || ubits(&a.predict(&v)), || ubits(&b.predict(&v)));
+            });
+        });
+    }
+    let y2: Array2<F> = Array2::from_shape_fn((n, 2), |(i, c)| x[(i, c)] * F::cast(2.0) - x[(i, c + 3)] + F::cast(rng.unit() * 0.1));
+    if let Ok(m) = PlsRegression::<F>::params(2).fit(&Dataset::new(x.clone(), y2)) {
+        em.count("wide:pls");
+        rt(em, sw, "linfa-pls::PlsRegression", tag, Norm::Exact, &m, &|a: &PlsRegression<F>, b, ctx, class| {
+            for_layouts(&fresh, |l, v| {
+                same_call(ctx, "predict", &format!("{}:probe=wide:layout={}", class, l), "predict", || bits(&a.predict(&v)), || bits(&b.predict(&v)));
+            });
+        });
+    }
+    for w in [Whitener::pca(), Whitener::zca(), Whitener::cholesky()] {
+        if let Ok(m) = w.fit(&ds) {
+            em.count("wide:whitener");
+            let fresh = fresh.clone();
+            rt(em, sw, "linfa-preprocessing::FittedWhitener", tag, Norm::Exact, &m, &|a: &linfa_preprocessing::whitening::FittedWhitener<F>, b, ctx, class| {
+                for_layouts(&fresh, |l, v| {
+                    // `transform` takes an owned array: C order, F order (kept by `to_owned`), and the copies of the two views
+                    let owned = if l == "f" { v.t().to_owned().reversed_axes() } else { v.to_owned() };
+                    same_call(ctx, "predict", &format!("{}:probe=wide:layout={}", class, l), "transform", || bits(&a.transform(owned.clone())), || bits(&b.transform(owned.clone())));
+                });
+            });
+        }
+    }
+    for sp in [LinearScaler::<F>::standard(), LinearScaler::min_max()] {
+        if let Ok(m) = sp.fit(&ds) {
+            let fresh = fresh.clone();
+            rt(em, sw, "linfa-preprocessing::LinearScaler", tag, Norm::Exact, &m, &|a: &LinearScaler<F>, b, ctx, class| {
+                for_layouts(&fresh, |l, v| {
+                    let owned = if l == "f" { v.t().to_owned().reversed_axes() } else { v.to_owned() };
+                    same_call(ctx, "predict", &format!("{}:probe=wide:layout={}", class, l), "transform", || bits(&a.transform(owned.clone())), || bits(&b.transform(owned.clone())));
+                });
+            });
+        }
+    }
+    // training data in the four layouts: the restored parameter sets refit like the originals on every one of them
+    for_layouts(&x, |l, v| {
+        em.count(&format!("layout:{}", l));
+        let dsv = DatasetBase::new(v, yr.view());
+        rt(em, sw, "linfa-linear::LinearRegression", tag, Norm::Exact, &LinearRegression::new(), &|a, b, ctx, class| {
+            refit_same(ctx, &format!("{}:layout={}", class, l), &|| fp::<linfa_linear::FittedLinearRegression<F>, _>(a.fit(&dsv)), &|| fp::<linfa_linear::FittedLinearRegression<F>, _>(b.fit(&dsv)));
+        });
+        let dsu = DatasetBase::from(v);
+        rt(em, sw, "linfa-preprocessing::LinearScalerParams", tag, Norm::Exact, &LinearScaler::<F>::standard(), &|a, b, ctx, class| {
+            refit_same(ctx, &format!("{}:layout={}", class, l), &|| fp(a.fit(&dsu)), &|| fp(b.fit(&dsu)));
+        });
+        rt(em, sw, "linfa-preprocessing::Whitener", tag, Norm::Exact, &Whitener::cholesky(), &|a, b, ctx, class| {
+            refit_same(ctx, &format!("{}:layout={}", class, l), &|| fp(a.fit(&dsu)), &|| fp(b.fit(&dsu)));
+        });
+        let dsl = DatasetBase::new(v, y.view());
+        let vp: linfa_bayes::GaussianNbValidParams<F, usize> = linfa_bayes::GaussianNb::params().check().unwrap();
+        rt(em, sw, "linfa-bayes::GaussianNbValidParams", tag, Norm::Exact, &vp, &|a, b, ctx, class| {
+            refit_same(ctx, &format!("{}:layout={}", class, l), &|| fp(a.fit(&dsl)), &|| fp(b.fit(&dsl)));
+        });
+    });
+}
+
+fn wide_pca(em: &mut Em, rng: &mut Rng, sw: &mut Sweep) {
+    use linfa_reduction::Pca;
+    let p = 8 + rng.below(10);
+    let n = 3 * p + rng.below(8);
+    let x: Array2<f64> = records(rng, n, p);
+    let fresh: Array2<f64> = records(rng, 7, p);
+    for whiten in [false, true] {
+        if let Ok(m) = Pca::params(2 + rng.below(4)).whiten(whiten).fit(&DatasetBase::from(x.clone())) {
+            em.count("wide:pca");
+            rt(em, sw, "linfa-reduction::Pca", "f64", Norm::Exact, &m, &|a: &Pca<f64>, b, ctx, class| {
+                for_layouts(&fresh, |l, v| {
+                    same_call(ctx, "predict", &format!("{}:probe=wide:layout={}", class, l), "predict", || bits(&a.predict(&v)), || bits(&b.predict(&v)));
+                });
+            });
+        }
+    }
+    for_layouts(&x, |l, v| {
+        let dsu = DatasetBase::from(v);
+        rt(em, sw, "linfa-reduction::PcaParams", "f64", Norm::Exact, &Pca::params(3), &|a, b, ctx, class| {
+            refit_same(ctx, &format!("{}:layout={}", class, l), &|| fp(a.fit(&dsu)), &|| fp(b.fit(&dsu)));
+        });
+    });
+}
+
+// ------------------------------------------------------------------------------------------------
+// degenerate fitted states
+// ------------------------------------------------------------------------------------------------
+
+fn degenerate<F: Fl>(em: &mut Em, rng: &mut Rng, sw: &mut Sweep) {
+    use linfa_clustering::{KMeans, KMeansInit, Optics};
+    use linfa_preprocessing::linear_scaling::LinearScaler;
+    use linfa_trees::DecisionTree;
+    let tag = F::NAME;
+    let (n, p) = (9 + rng.below(5), 3);
+    // column 1 is constant (zero spread), column 2 is all zero
+    let x: Array2<F> = Array2::from_shape_fn((n, p), |(i, j)| match j { 0 => F::cast(i as f64 * 0.5 - 1.0), 1 => F::cast(4.25), _ => F::cast(0.0) });
+    let fresh: Array2<F> = Array2::from_shape_fn((4, p), |(i, j)| F::cast((i + j) as f64 - 1.5));
+    em.count("probe:degenerate");
+    for sp in [LinearScaler::<F>::standard(), LinearScaler::min_max(), LinearScaler::max_abs()] {
+        if let Ok(m) = sp.fit(&DatasetBase::from(x.clone())) {
+            em.count("degenerate:scaler");
+            let fresh = fresh.clone();
+            rt(em, sw, "linfa-preprocessing::LinearScaler", tag, Norm::Exact, &m, &|a: &LinearScaler<F>, b, ctx, class| {
+                let class = format!("{}:instance=constant_column", class);
+                ctx.require(a == b || (a != a && super::value_has_nan()), "equal", &class, || "scalers differ".into());
+                dbg_same(ctx, &class, a, b);
+                same_arr(ctx, "accessors", &class, "scales", a.scales(), b.scales());
+                same_arr(ctx, "accessors", &class, "offsets", a.offsets(), b.offsets());
+                same_call(ctx, "predict", &class, "transform", || bits(&a.transform(fresh.clone())), || bits(&b.transform(fresh.clone())));
+            });
+        }
+    }
+    // naive Bayes: a zero-variance feature in every class
+    let y: Array1<usize> = Array1::from_shape_fn(n, |i| i % 2);
+    if let Ok(m) = linfa_bayes::GaussianNb::<F, usize>::params().fit(&Dataset::new(x.clone(), y.clone())) {
+        em.count("degenerate:nb");
+        let fresh = fresh.clone();
+        rt(em, sw, "linfa-bayes::GaussianNb", tag, Norm::SortMaps, &m, &|a: &linfa_bayes::GaussianNb<F, usize>, b, ctx, class| {
+            let class = format!("{}:instance=zero_variance", class);
+            ctx.require(a == b || (a != a && super::value_has_nan()), "equal", &class, || "models differ".into());
+            same_call(ctx, "predict", &class, "predict", || a.predict(&fresh).to_vec(), || b.predict(&fresh).to_vec());
+        });
+    }
+    // k-means: a precomputed centroid far from every observation keeps an empty cluster
+    let mut cent: Array2<F> = x.slice(ndarray::s![0..3, ..]).to_owned();
+    cent.row_mut(2).fill(F::cast(1e6));
+    if let Ok(m) = KMeans::params(3).init_method(KMeansInit::Precomputed(cent)).max_n_iterations(5).fit(&DatasetBase::from(x.clone())) {
+        em.count("degenerate:kmeans");
+        let fresh = fresh.clone();
+        rt(em, sw, "linfa-clustering::KMeans", tag, Norm::Exact, &m, &|a, b, ctx, class| {
+            let class = format!("{}:instance=empty_cluster", class);
+            ctx.require(a == b || (a != a && super::value_has_nan()), "equal", &class, || "models differ".into());
+            dbg_same(ctx, &class, a, b);
+            same_arr(ctx, "accessors", &class, "cluster_count", a.cluster_count(), b.cluster_count());
+            same_call(ctx, "predict", &class, "predict", || a.predict(&fresh).to_vec(), || b.predict(&fresh).to_vec());
+        });
+    }
+    // a tree that is a single leaf (one class)
+    let y1: Array1<usize> = Array1::from_elem(n, 5);
+    if let Ok(m) = DecisionTree::<F, usize>::params().fit(&Dataset::new(x.clone(), y1)) {
+        em.count("degenerate:tree");
+        let fresh = fresh.clone();
+        rt(em, sw, "linfa-trees::DecisionTree", tag, Norm::Exact, &m, &|a: &DecisionTree<F, usize>, b, ctx, class| {
+            let class = format!("{}:instance=single_leaf", class);
+            ctx.require(a == b || (a != a && super::value_has_nan()), "equal", &class, || "trees differ".into());
+            dbg_same(ctx, &class, a, b);
+            ctx.require(a.num_leaves() == b.num_leaves() && a.features() == b.features() && a.max_depth() == b.max_depth(), "accessors", &class, || "leaves / features / depth".into());
+            same_call(ctx, "predict", &class, "predict", || a.predict(&fresh).to_vec(), || b.predict(&fresh).to_vec());
+        });
+    }
+    // OPTICS: a neighbourhood so small that every observation is noise (no core distance anywhere)
+    if let Ok(vp) = Optics::params::<F>(3).tolerance(F::cast(1e-6)).check() {
+        let an = vp.transform(x.view());
+        {
+            em.count("degenerate:optics");
+            rt(em, sw, "linfa-clustering::OpticsAnalysis", tag, Norm::Exact, &an, &|a: &linfa_clustering::OpticsAnalysis<F>, b, ctx, class| {
+                let class = format!("{}:instance=all_noise", class);
+                ctx.require(a == b || (a != a && super::value_has_nan()), "equal", &class, || "analysis differs".into());
+                dbg_same(ctx, &class, a, b);
+                let key = |o: &linfa_clustering::OpticsAnalysis<F>| -> Vec<(usize, Option<u64>, Option<u64>)> { o.iter().map(|s| (s.index(), s.core_distance().map(fb), s.reachability_distance().map(fb))).collect() };
+                ctx.require(key(a) == key(b), "accessors", &class, || "sample accessors differ".into());
+            });
+        }
+    }
+}
+
+fn degenerate_text(em: &mut Em, sw: &mut Sweep) {
+    use linfa_preprocessing::CountVectorizer;
+    // every word occurs in every document and the upper document frequency excludes them all: empty vocabulary
+    let docs: Array1<String> = Array1::from_vec(vec!["one two".to_string(), "two one".to_string(), "one two one".to_string()]);
+    if let Ok(m) = CountVectorizer::params().document_frequency(0.0, 0.5).fit(&docs) {
+        em.count("degenerate:vocabulary");
+        let d = docs.clone();
+        rt(em, sw, "linfa-preprocessing::CountVectorizer", "-", Norm::SortMapsSeqs, &m, &|a: &CountVectorizer, b, ctx, class| {
+            let class = format!("{}:instance=empty_vocabulary", class);
+            ctx.require(a.vocabulary() == b.vocabulary() && a.nentries() == b.nentries(), "accessors", &class, || "vocabulary differs".into());
+            let f = |m: &CountVectorizer| m.transform(&d).map(|t| format!("{:?} {:?} {:?}", t.indptr().raw_storage(), t.indices(), t.shape())).map_err(|e| e.to_string());
+            same_call(ctx, "predict", &class, "transform", || f(a), || f(b));
+        });
+    }
+}
+
+// ------------------------------------------------------------------------------------------------
+// regex tokenizers whose meaning depends on the compile options (a restored value recompiles from the pattern
+// text alone, with the default options): documents that tell the options apart
+// ------------------------------------------------------------------------------------------------
+
+fn regex_flags(em: &mut Em, sw: &mut Sweep) {
+    use linfa_preprocessing::tf_idf_vectorization::TfIdfVectorizer;
+    use linfa_preprocessing::{CountVectorizer, Tokenizer};
+    // (pattern, documents): case_insensitive / multi_line / unicode / dot_matches_new_line / ignore_whitespace / swap_greed
+    let cases: [(&str, &str, [&str; 3]); 6] = [
+        ("case", r"\b[a-z]+\b", ["one Two THREE", "Two two tWo one", "THREE three"]),
+        ("multi_line", r"^\w+|\w+$", ["one two\nthree four\nfive six", "three x\none y\nsix z", "one\ntwo"]),
+        ("unicode", r"\w+", ["ﬁve naïve café", "café five ﬁve", "naïve nai ve"]),
+        ("dot_newline", r"a.b", ["a\nb a b axb", "a\nb", "axb a\tb"]),
+        ("whitespace", r"o n e", ["one o n e", "o n e o n e", "one"]),
+        ("greed", r"a+?b*", ["aaab aab", "ab aaa", "b a"]),
+    ];
+    for (name, pat, docs) in cases.iter() {
+        let docs: Array1<String> = Array1::from_vec(docs.iter().map(|s| s.to_string()).collect());
+        em.count("tokenizer:regex_flags");
+        let params = CountVectorizer::params().convert_to_lowercase(false).normalize(false).tokenizer(Tokenizer::Regex(pat.to_string()));
+        let show = |r: linfa_preprocessing::error::Result<CountVectorizer>, d: &Array1<String>| -> String {
+            match r {
+                Ok(m) => match m.transform(d) {
+                    Ok(t) => {
+                        let mut cols: Vec<(String, Vec<(usize, usize)>)> = m.vocabulary().iter().map(|w| (w.clone(), vec![])).collect();
+                        for (v, (r, c)) in t.iter() {
+                            cols[c].1.push((r, *v));
+                        }
+                        cols.sort();
+                        format!("{:?}", cols)
+                    }
+                    Err(e) => format!("err:{}", e),
+                },
+                Err(e) => format!("err:{}", e),
+            }
+        };
+        let d = docs.clone();
+        rt(em, sw, "linfa-preprocessing::CountVectorizerParams", "-", Norm::SortMapsSeqs, &params, &|a, b, ctx, class| {
+            let class = format!("{}:tokenizer=regex_flags:{}", class, name);
+            same_call(ctx, "refit", &class, "fit + transform", || show(a.fit(&d), &d), || show(b.fit(&d), &d));
+            ctx.require(!show(a.fit(&d), &d).starts_with("err:"), "refit", &format!("{}:generator", class), || "the original was meant to work".into());
+        });
+        if let Ok(vp) = params.clone().check() {
+            let d = docs.clone();
+            rt(em, sw, "linfa-preprocessing::CountVectorizerValidParams", "-", Norm::SortMapsSeqs, &vp, &|a, b, ctx, class| {
+                let class = format!("{}:tokenizer=regex_flags:{}", class, name);
+                same_call(ctx, "refit", &class, "fit + transform", || show(a.fit(&d), &d), || show(b.fit(&d), &d));
+            });
+        }
+        if let Ok(m) = params.fit(&docs) {
+            let d = docs.clone();
+            rt(em, sw, "linfa-preprocessing::CountVectorizer", "-", Norm::SortMapsSeqs, &m, &|a: &CountVectorizer, b, ctx, class| {
+                let class = format!("{}:tokenizer=regex_flags:{}", class, name);
+                let f = |m: &CountVectorizer| m.transform(&d).map(|t| format!("{:?} {:?} {:?} {:?}", t.indptr().raw_storage(), t.indices(), t.data(), t.shape())).map_err(|e| e.to_string());
+                same_call(ctx, "predict", &class, "transform", || f(a), || f(b));
+            });
+        }
+        let tv = TfIdfVectorizer::default().convert_to_lowercase(false).normalize(false).tokenizer(Tokenizer::Regex(pat.to_string()));
+        let d = docs.clone();
+        rt(em, sw, "linfa-preprocessing::TfIdfVectorizer", "-", Norm::SortMapsSeqs, &tv, &|a: &TfIdfVectorizer, b, ctx, class| {
+            let class = format!("{}:tokenizer=regex_flags:{}", class, name);
+            let f = |q: &TfIdfVectorizer| q.fit(&d).map(|m| { let mut v = m.vocabulary().clone(); v.sort(); v }).map_err(|e| e.to_string());
+            same_call(ctx, "refit", &class, "fit vocabulary", || f(a), || f(b));
+        });
+    }
+}
+
+// ------------------------------------------------------------------------------------------------
+// instantiations: unit nearest-neighbour selectors as the `N` of DBSCAN / OPTICS parameters, other generators as the
+// `R` of k-means / Gaussian-mixture / FTRL parameters
+// ------------------------------------------------------------------------------------------------
+
+fn dbscan_nn<F: Fl, N>(em: &mut Em, rng: &mut Rng, sw: &mut Sweep, nname: &str, nn: N)
+where
+    N: linfa_nn::NearestNeighbour + Clone + serde::Serialize + serde::de::DeserializeOwned + PartialEq + std::fmt::Debug + 'static,
+{
+    use linfa_clustering::{Dbscan, Optics};
+    use linfa_nn::distance::L2Dist;
+    let tag = F::NAME;
+    let (n, p) = (12 + rng.below(8), 2);
+    let y = labels(rng, n, 2);
+    let x: Array2<F> = blobs(rng, n, p, &y);
+    if let Ok(dvp) = Dbscan::params_with::<F, _, _>(3, L2Dist, nn.clone()).tolerance(F::cast(1.5)).check() {
+        em.count(&format!("inst:dbscan<{}>", nname));
+        let x2 = x.clone();
+        rt(em, sw, "linfa-clustering::DbscanValidParams", tag, Norm::Exact, &dvp, &|a, b, ctx, class| {
+            let class = format!("{}:nn={}", class, nname);
+            ctx.require(a == b || (a != a && super::value_has_nan()), "equal", &class, || format!("{:?} vs {:?}", a, b));
+            dbg_same(ctx, &class, a, b);
+            ctx.require(a.nn_algo() == b.nn_algo(), "accessors", &class, || "nn_algo".into());
+            refit_same(ctx, &class, &|| fp::<_, String>(Ok(a.transform(&x2))), &|| fp::<_, String>(Ok(b.transform(&x2))));
+        });
+    }
+    if let Ok(ovp) = Optics::params_with::<F, _, _>(3, L2Dist, nn).tolerance(F::cast(3.0)).check() {
+        let x2 = x.clone();
+        rt(em, sw, "linfa-clustering::OpticsValidParams", tag, Norm::Exact, &ovp, &|a, b, ctx, class| {
+            let class = format!("{}:nn={}", class, nname);
+            ctx.require(a == b || (a != a && super::value_has_nan()), "equal", &class, || format!("{:?} vs {:?}", a, b));
+            dbg_same(ctx, &class, a, b);
+            refit_same(ctx, &class, &|| fp::<_, String>(Ok(a.transform(x2.view()))), &|| fp::<_, String>(Ok(b.transform(x2.view()))));
+        });
+    }
+}
+
+fn with_rng<F: Fl, R>(em: &mut Em, rng: &mut Rng, sw: &mut Sweep, rname: &str, r: R)
+where
+    R: rand::Rng + Clone + serde::Serialize + serde::de::DeserializeOwned + PartialEq + std::fmt::Debug + 'static,
+{
+    use linfa_clustering::{GaussianMixtureModel, KMeans};
+    use linfa_ftrl::Ftrl;
+    use linfa_nn::distance::L2Dist;
+    let tag = F::NAME;
+    let (n, p) = (14 + rng.below(8), 2);
+    let y = labels(rng, n, 2);
+    let x: Array2<F> = blobs(rng, n, p, &y);
+    let ds = DatasetBase::from(x.clone());
+    em.count(&format!("inst:rng<{}>", rname));
+    let kp = KMeans::params_with(2, r.clone(), L2Dist).max_n_iterations(20);
+    let ds2 = ds.clone();
+    rt(em, sw, "linfa-clustering::KMeansParams", tag, Norm::Exact, &kp, &|a, b, ctx, class| {
+        let class = format!("{}:rng={}", class, rname);
+        ctx.require(a == b || (a != a && super::value_has_nan()), "equal", &class, || format!("{:?} vs {:?}", a, b));
+        dbg_same(ctx, &class, a, b);
+        refit_same(ctx, &class, &|| fp(a.fit(&ds2)), &|| fp(b.fit(&ds2)));
+    });
+    let gp = GaussianMixtureModel::<F>::params_with_rng(2, r.clone()).max_n_iterations(10).reg_covariance(F::cast(1e-3));
+    let ds2 = ds.clone();
+    rt(em, sw, "linfa-clustering::GmmParams", tag, Norm::Exact, &gp, &|a, b, ctx, class| {
+        let class = format!("{}:rng={}", class, rname);
+        ctx.require(a == b || (a != a && super::value_has_nan()), "equal", &class, || format!("{:?} vs {:?}", a, b));
+        dbg_same(ctx, &class, a, b);
+        refit_same(ctx, &class, &|| fp(a.fit(&ds2)), &|| fp(b.fit(&ds2)));
+    });
+    let fpz = Ftrl::<F>::params_with_rng(r).alpha(F::cast(0.5));
+    let dsb = Dataset::new(x, y.mapv(|v| v == 1));
+    rt(em, sw, "linfa-ftrl::FtrlParams", tag, Norm::Exact, &fpz, &|a, b, ctx, class| {
+        let class = format!("{}:rng={}", class, rname);
+        ctx.require(a == b || (a != a && super::value_has_nan()), "equal", &class, || format!("{:?} vs {:?}", a, b));
+        dbg_same(ctx, &class, a, b);
+        refit_same(ctx, &class, &|| fp(a.fit_with(None, &dsb)), &|| fp(b.fit_with(None, &dsb)));
+    });
+}
+
+fn instantiations<F: Fl>(em: &mut Em, rng: &mut Rng, sw: &mut Sweep) {
+    use rand::SeedableRng;
+    dbscan_nn::<F, _>(em, rng, sw, "KdTree", linfa_nn::KdTree);
+    dbscan_nn::<F, _>(em, rng, sw, "BallTree", linfa_nn::BallTree);
+    dbscan_nn::<F, _>(em, rng, sw, "LinearSearch", linfa_nn::LinearSearch);
+    let (s1, s2) = (rng.next(), rng.next());
+    with_rng::<F, _>(em, rng, sw, "Xoshiro256StarStar", rand_xoshiro::Xoshiro256StarStar::seed_from_u64(s1));
+    with_rng::<F, _>(em, rng, sw, "Xoroshiro128Plus", rand_xoshiro::Xoroshiro128Plus::seed_from_u64(s2));
 }
 
 pub fn sweep_extra(em: &mut Em, rng: &mut Rng, sw: &mut Sweep, first: bool) {
@@ -638,6 +1056,15 @@ pub fn sweep_extra(em: &mut Em, rng: &mut Rng, sw: &mut Sweep, first: bool) {
     invalid::<f64>(em, rng, sw);
     invalid_untyped(em, rng, sw);
     text_files(em, rng, sw);
+    wide::<f32>(em, rng, sw);
+    wide::<f64>(em, rng, sw);
+    wide_pca(em, rng, sw);
+    degenerate::<f32>(em, rng, sw);
+    degenerate::<f64>(em, rng, sw);
+    degenerate_text(em, sw);
+    regex_flags(em, sw);
+    instantiations::<f32>(em, rng, sw);
+    instantiations::<f64>(em, rng, sw);
     if first {
         sizes(em, rng, sw);
     }
